@@ -122,7 +122,13 @@ def run_blocks(rng, n, name, families=None):
             dist['slack_not_readable'] = dist.get('slack_not_readable', 0) + 1     # PICOS cannot evaluate this test point
             continue
         payload['block_built_by_the_code'] = S.tolist()
-        batch.add('', [(f'lmi_block/{fam}', f'qmat_eqb ({model}) {qm(S)}')], payload)
+        try:
+            lit = qm(S)
+        except ValueError:
+            # the model's entries are small dyadic rationals for these test values: an entry that is not cannot agree
+            batch.add('', [(f'lmi_block/{fam}: block has entries that the documented block cannot produce from these test values', 'false')], payload)
+            continue
+        batch.add('', [(f'lmi_block/{fam}', f'qmat_eqb ({model}) {lit}')], payload)
         made += 1
         dist[fam] = dist.get(fam, 0) + 1
         if len(samples) < 1:
